@@ -400,6 +400,10 @@ class C17(Prop):
         for kind in kinds:
             for v in range(6 if thorough else 2):
                 yield {"k": "pure", "kind": kind, "v": v + (self.seed * 1000 if v >= 3 else 0)}
+        # module-level constructors are functions of their arguments: asked again after the caller changed, in place, the
+        # object it was given the first time, they build the same object as before
+        for v in range(4 if thorough else 2):
+            yield {"k": "factory", "v": v}
         # after a call that took another object as its argument, receiver and argument go their own ways: each is then
         # changed through its public in-place methods and the other one is re-observed
         for kind in kinds:
@@ -418,6 +422,8 @@ class C17(Prop):
             setattr(self, "_k_" + be.name, K)
         if scn["k"] == "methods3":
             return self._methods3(scn, be, K)
+        if scn["k"] == "factory":
+            return self._factory(scn, be, K)
         kind = scn["kind"]
         if kind not in K.methods and kind != "MeasuringCircuit":
             return []
@@ -723,6 +729,59 @@ def mask_unset(b, a):
 
 
 C17._methods3 = _methods3
+def _factory(self, scn, be, K):
+    P, St, C = be.paulialg, be.stabilizer, be.circuit
+    n = 2 + scn["v"] % 2
+    sgn = ("", "-")[scn["v"] // 2 % 2]
+    g = lambda name: getattr(C, name)
+    table = [
+        ("pauli(str)", lambda: P.pauli(sgn + "XZY"[:n])),
+        ("pauli(list)", lambda: P.pauli([1, 3, 2][:n])),
+        ("paulis(strs)", lambda: P.paulis("XZY"[:n], "-" + "ZZX"[:n])),
+        ("pauli_identity", lambda: P.pauli_identity(n)),
+        ("pauli_zero", lambda: P.pauli_zero(n)),
+        ("identity_map", lambda: St.identity_map(n)),
+        ("clifford_rotation_map", lambda: St.clifford_rotation_map(be.pauli([1, 3, 2][:n] + [2]))),
+        ("zero_state", lambda: St.zero_state(n)),
+        ("one_state", lambda: St.one_state(n)),
+        ("ghz_state", lambda: St.ghz_state(n)),
+        ("maximally_mixed_state", lambda: St.maximally_mixed_state(n)),
+        ("stabilizer_state(strs)", lambda: St.stabilizer_state(sgn + "XX" + "I" * (n - 2), "ZZ" + "I" * (n - 2))),
+        ("H", lambda: g("H")(0)), ("S", lambda: g("S")(1)), ("X", lambda: g("X")(0)), ("CNOT", lambda: g("CNOT")(0, 1)),
+        ("C(5)", lambda: g("C")(5, 0)), ("C(17)", lambda: g("C")(17, 1)),
+        ("clifford_rotation_gate", lambda: C.clifford_rotation_gate(be.pauli([1, 3, 2][:n] + [0]))),
+        ("identity_circuit", lambda: C.identity_circuit(n)),
+    ]
+    out = []
+    for name, f in table:
+        rec = {"op": "factory", "name": name, "n": n}
+        try:
+            rec["first"] = fz(val(f()))
+            x = f()
+        except Exception:
+            continue               # (a constructor this package does not have / does not support in this form)
+        try:
+            poke(x)
+            if hasattr(x, "rotate_by"):
+                x.rotate_by(be.pauli([1] + [0] * (n - 1) + [0]))
+            for fm in ("forward_map", "backward_map", "generator"):
+                m = getattr(x, fm, None)
+                if m is not None and hasattr(m, "rotate_by"):
+                    k = len(be.p_list(m)[0]) - 1 if fm != "generator" else len(be.p_pauli(m)) - 1
+                    m.rotate_by(be.pauli([2] + [0] * (k - 1) + [0]))
+            if hasattr(x, "take") and hasattr(C, "H"):
+                x.take(C.H(0))
+        except Exception:
+            pass
+        try:
+            rec["again"] = fz(val(f()))
+        except Exception as e:
+            rec["exc"] = _exc(e)
+        out.append(rec)
+    return out
+
+
+C17._factory = _factory
 C17._pure = _pure
 C17._after = _after
 PROP = C17
